@@ -22,3 +22,24 @@ pub(crate) fn refska_new_stub<IntT: for<'a> UInt<'a>>(k: usize, _filename: &str,
         mapped_names: Vec::new(),
     }
 }
+
+/// a RefSka whose split k-mer list holds exactly `kmers`, in that order (used by the `weedset` harnesses)
+pub(crate) fn refska_with_kmers<IntT: for<'a> UInt<'a>>(k: usize, kmers: &[IntT]) -> RefSka<IntT> {
+    let mut split_kmer_pos = Vec::new();
+    let mut i = 0;
+    while i < kmers.len() {
+        split_kmer_pos.push(RefKmer { kmer: kmers[i], base: 0, pos: i, chrom: 0, rc: false });
+        i += 1;
+    }
+    RefSka {
+        k,
+        split_kmer_pos,
+        ambig_mask: false,
+        chrom_names: Vec::new(),
+        seq: Vec::new(),
+        repeat_coors: Vec::new(),
+        mapped_pos: Vec::new(),
+        mapped_variants: Array2::zeros((0, 0)),
+        mapped_names: Vec::new(),
+    }
+}
